@@ -210,6 +210,16 @@ func UFInverse(f, g string) {}
 func UFLeftInverse(f, g string) {}
 
 func FlatTime(name string) time.Time            { return time.Unix(0, num(name)).UTC() }
+// CivilTime: an arbitrary instant given by calendar fields (engine: civil-form symbolic time; natively built by time.Date)
+func CivilTime(name string, loc *time.Location) time.Time {
+	if loc == nil {
+		loc = time.UTC
+	}
+	_ = num(name + ".weekday")
+	return time.Date(int(num(name+".year")), time.Month(num(name+".month")), int(num(name+".day")), int(num(name+".hour")),
+		int(num(name+".minute")), int(num(name+".second")), int(num(name+".nanosecond")), loc)
+}
+
 func TimeFromNanos(ns int64) time.Time          { return time.Unix(0, ns).UTC() }
 func TimeNanos(t time.Time) int64               { return t.UnixNano() }
 func SpareCap(buf []byte, off, n, c int) []byte { return buf[off : off+n : off+n+c] }
